@@ -1,8 +1,9 @@
 """C18: allocation-failure enumeration (every k, once and sticky) over all module scenarios."""
-import json, re, subprocess
+import json, os, re, subprocess
 
 from .. import build, core
 
+PROP_FILES = ["src/" + f for f in ("pdir-posix.c pinifile.c plist.c ptree.c ptree-bst.c ptree-rb.c ptree-avl.c phashtable.c pstring.c perror.c pipc.c psemaphore-posix.c pshm-posix.c pshmbuffer.c psocket.c psocketaddress.c pcryptohash.c pcryptohash-md5.c pcryptohash-sha1.c pcryptohash-sha2-256.c pcryptohash-sha2-512.c pcryptohash-sha3.c pcryptohash-gost3411.c puthread.c puthread-posix.c prwlock-posix.c prwlock-general.c plibraryloader-posix.c pmutex-posix.c pcondvariable-posix.c pspinlock-c11.c ptimeprofiler.c").split()]
 LEVEL = "fault_enumeration"
 SKIP = {"p_malloc", "p_malloc0", "p_realloc", "p_free", "va_malloc", "va_realloc", "va_free"}
 
@@ -138,6 +139,27 @@ def run(ctx):
                    "pre-existing containers/objects unchanged (scenario self-checks), no double/foreign free.")
     cov["per_scenario"] = {k: {kk: (sorted(vv) if isinstance(vv, set) else vv) for kk, vv in v.items()} for k, v in agg.items()}
     cov["failing_sites"] = sorted(sites)
+    # static cross-check of reach: every function of the anchored sources that calls an allocating primitive, against the functions seen in failing backtraces
+    try:
+        import re as _re
+        seen = set(x for st in sites for x in st.split("<"))
+        allf, never = set(), set()
+        for f in PROP_FILES:
+            pth = os.path.join(build.REPO, f)
+            if not os.path.exists(pth):
+                continue
+            fn = None
+            for m in _re.finditer(r'^(\w+) \([^;{]*?\)\n\{|(p_malloc0?|p_realloc|p_strdup|p_list_append|p_list_prepend|p_error_new\w*|p_strchomp) \(', open(pth, errors="replace").read(), _re.M | _re.S):
+                if m.group(1):
+                    fn = m.group(1)
+                elif fn:
+                    allf.add(fn)
+                    if fn not in seen:
+                        never.add(fn)
+        cov["allocating_functions_in_anchored_sources"] = len(allf)
+        cov["allocating_functions_never_failed"] = sorted(never)
+    except Exception as e:       # reach report only; never decides the verdict
+        cov["allocating_functions_never_failed"] = "scan failed: %s" % e
     for k in list(agg)[:3]:
         ctx.sample({"scenario": k, "N": agg[k]["N"], "k_enumerated": "1..%s" % ((agg[k]["N"] or 0) + 1), "sites": sorted(agg[k]["sites"])[:6]})
     if cases < 100 or len(sites) < 10:
